@@ -13,7 +13,7 @@ PID = "C19"
 LEVEL = "exploration"
 RULE = ("generated programs: trees of nodes (pure bodies over JSON-able arguments, a per-attempt script raise retriable / non-retriable / return, children "
         "called singly, as a parallelized group or through direct-task wrappers) over a grid of task options (max_retries 0-3 x retry_for sets); base class: "
-        "every child eventually returns so every result is read exactly once; extended class (own signatures): children may fail terminally; "
+        "every child eventually returns so every result is read exactly once; extended class (own signatures): one node anywhere in the tree may fail terminally; "
         "distinct = (program shape, option cells used, outcome kind)")
 ASSUMPTIONS = [
     "base program class: every result is read exactly once (children always succeed within their retries); terminal failures only at the root",
@@ -34,7 +34,11 @@ def gen_cases(tier, seed):
     thorough = tier == "thorough"
     n = 5000 if thorough else 120
     per = 50 if thorough else 6
-    return [{"seed": seed * 80021 + i, "n": per, "extended_share": 0.2 if thorough else 0.15} for i in range(n // per)]
+    cases = [{"seed": seed * 80021 + i, "n": per, "extended_share": 0.2 if thorough else 0.15} for i in range(n // per)]
+    # retry accounting under long preemption windows: single always-retrying nodes x many starving schedules
+    for i in range(24 if thorough else 6):
+        cases.append({"kind": "retryrace", "seed": seed * 80021 + 7000 + i, "schedules": 120 if thorough else 25})
+    return cases
 
 
 def gen_program(rng, extended):
@@ -42,7 +46,16 @@ def gen_program(rng, extended):
     counter = [0]
     names = list(prog.VARIANTS)
 
+    budget = [1]   # at most one node of a program fails terminally: with two, which failure surfaces first is legitimately timing dependent
+
     def script_for(fn, may_fail_terminally):
+        may_fail_terminally = may_fail_terminally and budget[0] > 0
+        s_ = _script_for(fn, may_fail_terminally)
+        if s_[-1] != "return":
+            budget[0] -= 1
+        return s_
+
+    def _script_for(fn, may_fail_terminally):
         mr, rf = prog.VARIANTS[fn]
         retri = ["RetryError"] + list(rf)
         nonretri = [x for x in ("ValueError", "KeyError", "TypeError") if x not in rf]
@@ -62,17 +75,23 @@ def gen_program(rng, extended):
         spec = {"id": counter[0], "fn": fn, "v": rng.randrange(10), "children": [], "call": "single"}
         spec["script"] = script_for(fn, may_fail)
         if depth < 3 and counter[0] < 7 and rng.random() < 0.6:
-            how = rng.choice(["single", "group", "direct"])
+            how = rng.choice(["single", "group", "direct", "cgroup"])
             spec["call"] = how
+            if how == "cgroup":
+                spec["extra"] = rng.choice([0, 100])
             nk = rng.randint(1, 3)
             gfn = rng.choice(names if how != "direct" else list(prog.DIRECT_VARIANTS.values()))
             for _ in range(nk):
                 if counter[0] >= 7:
                     break
                 c = mk(depth + 1, extended)
-                if how in ("group", "direct"):
+                if how in ("group", "direct", "cgroup"):
+                    if c["script"][-1] != "return":
+                        budget[0] += 1       # the script is re-drawn for the group's function
                     c["fn"] = gfn
                     c["script"] = script_for(gfn, extended)
+                if how == "cgroup":
+                    c["bonus"] = rng.choice([0, 0, 10, 20])
                 spec["children"].append(c)
         return spec
     return mk(1, True)
@@ -109,11 +128,15 @@ def run_sync(program):
     return out, dict(prog.COUNTS)
 
 
-def run_dist(backend, program, seed):
+RETRY_LINES = ["pynenc.orchestrator.base_orchestrator:BaseOrchestrator.set_invocation_retry", "pynenc.invocation.dist_invocation:DistributedInvocation.run"]
+
+
+def run_dist(backend, program, seed, strategy="random", extra_lines=(), hot=()):
     from vlib import runner_sim
     from vtasks import prog
     prog.COUNTS.clear()
-    sim = runner_sim.Sim(backend, slots=2, strategy="random", seed=seed, max_steps=60000)
+    sim = runner_sim.Sim(backend, slots=2, strategy=strategy, seed=seed, max_steps=60000, extra_lines=extra_lines)
+    sim.hot_labels = tuple(hot)
 
     def build(s):
         app = s.make_app()
@@ -132,8 +155,36 @@ def run_dist(backend, program, seed):
     return ("value", res.get("value")), dict(prog.COUNTS), out
 
 
+def run_retryrace(case):
+    """a node that keeps raising a retriable exception must execute exactly max_retries + 1 times however its runner threads are descheduled"""
+    from vtasks import prog
+    rng = random.Random(case["seed"])
+    hooks = Counter()
+    V, distinct = [], []
+    for k in range(case["schedules"]):
+        fn = rng.choice([f for f, (mr, rf) in prog.VARIANTS.items() if mr >= 1])
+        mr, rf = prog.VARIANTS[fn]
+        exc = rng.choice(["RetryError"] + list(rf))
+        program = {"id": 1, "fn": fn, "v": 1, "children": [], "call": "single", "script": [exc] * (mr + 3)}
+        out, counts, raw = run_dist(rng.choice(["mem", "mem", "sqlite"]), program, case["seed"] * 31 + k, "starve", RETRY_LINES, hot=("set_invocation_retry", "sql:"))
+        hooks["programs"] += 1
+        hooks["three_way_comparisons"] += 1
+        if out is None:
+            hooks["starved_runs_redone_fairly"] += 1
+            continue
+        hooks["retry_arithmetic_checked"] += 1
+        if counts.get(1, 0) != mr + 1:
+            V.append({"sig": "execution-count-vs-statement:retry-boundary-race", "what": f"a node with max_retries={mr} that always raises {exc} executed {counts.get(1, 0)} times (statement: {mr + 1})",
+                      "witness": {"program": program, "schedule_seed": case["seed"] * 31 + k, "outcome": out}})
+        distinct.append(["retryrace", fn, exc, raw.get("steps", 0) // 50])
+    dset = {tuple(map(str, d)) for d in distinct}
+    return {"violations": V[:3], "distinct": [list(d) for d in dset], "hooks": dict(hooks), "events": hooks["three_way_comparisons"], "evaluations": hooks["programs"], "sample": None}
+
+
 def run_case(case):
     from vtasks import prog
+    if case.get("kind") == "retryrace":
+        return run_retryrace(case)
     rng = random.Random(case["seed"])
     hooks = Counter()
     V, distinct = [], []
@@ -152,7 +203,12 @@ def run_case(case):
         sync_out, sync_counts = run_sync(program)
         results = {"sync": (sync_out, sync_counts)}
         for backend in ("mem", "sqlite") if n % 3 == 0 else ("mem",):
-            d_out, d_counts, raw = run_dist(backend, program, case["seed"] + n)
+            # alternate a plain fair schedule with one that opens long preemption windows (a descheduled thread between two writes)
+            d_out, d_counts, raw = run_dist(backend, program, case["seed"] + n, "random" if n % 2 else "starve")
+            if d_out is None and not n % 2:
+                # a repeated state while one thread is being starved is not a livelock of the program: decide under the fair schedule
+                hooks["starved_runs_redone_fairly"] += 1
+                d_out, d_counts, raw = run_dist(backend, program, case["seed"] + n, "random")
             if d_out is None:
                 if raw["lasso"] or raw["deadlock"]:
                     V.append({"sig": f"distributed-never-completes:{backend}{tag}", "what": "the program never finishes on the thread runner (state repeats)", "witness": {"program": program, "lasso": raw["lasso"]}})
@@ -171,6 +227,14 @@ def run_case(case):
             dc = results[backend][1]
             if dc != sync_counts:
                 diff = {k for k in set(dc) | set(sync_counts) if dc.get(k, 0) != sync_counts.get(k, 0)}
+                if extended:
+                    # the distributed run is observed until the root is final: a sibling of a terminally failed node that was routed but had not
+                    # started by then is unfinished work, not a different execution count
+                    unfinished = {k for k in diff if dc.get(k, 0) == 0}
+                    hooks["unfinished_siblings_ignored"] += len(unfinished)
+                    diff -= unfinished
+                    if not diff:
+                        continue
                 if extended and all(sync_counts.get(k, 0) == 0 for k in diff):
                     # mechanism: sync mode evaluates results lazily, so siblings after a terminally failed child never run inline,
                     # while the distributed siblings were already routed (and may or may not have run before the root failed)
